@@ -105,6 +105,35 @@ def _agree(a, b, depth=0):
     return None
 
 
+_LAYOUT = {"on": True, "count": 0}
+
+
+def _relayout(args, kwargs):
+    """About every fourth outermost call receives its 2-D array arguments in Fortran (column-major) memory order instead of
+    C order: same values, same dtype, different strides.  A result may not depend on that (code that flattens with
+    order="K"/"A", reinterprets buffers, or trusts .strides would)."""
+    if not _LAYOUT["on"]:
+        return args, kwargs
+    # decided from the argument values (not from a call counter), so that a saved case replays identically
+    import zlib
+
+    key = 0
+    for a in _inputs(args, kwargs):
+        if a.ndim == 2 and min(a.shape) > 1:
+            key = zlib.crc32(np.ascontiguousarray(a).view(np.uint8).tobytes()[:4096], key)
+    if key == 0 or key % 4:
+        return args, kwargs
+
+    def conv(o, depth=0):
+        if isinstance(o, np.ndarray) and o.ndim == 2 and min(o.shape) > 1 and o.flags.c_contiguous:
+            return np.asfortranarray(o)
+        if isinstance(o, list) and depth < 3:
+            return [conv(x, depth + 1) for x in o]
+        return o
+
+    return tuple(conv(a) for a in args), {k: conv(v) for k, v in kwargs.items()}
+
+
 def wrap(fn, twice=False):
     name = fn.__name__
 
@@ -112,6 +141,7 @@ def wrap(fn, twice=False):
     def wrapper(*args, **kwargs):
         if getattr(_state, "depth", 0) > 0:
             return fn(*args, **kwargs)
+        args, kwargs = _relayout(args, kwargs)
         snaps = [_snap(a) for a in args]
         ksnaps = {k: _snap(v) for k, v in kwargs.items()}
         _state.depth = 1
